@@ -494,6 +494,8 @@ def _ts_cause(diff):
         return None
     if abs(diff) == 1:
         return "off-by-1ms"
+    if abs(diff) > 26 * 3600 * 1000 + 1:
+        return "other"              # no zone offset explains more than a day
     r = diff % 1000
     if r == 0:
         return "utc-offset"         # whole seconds: the zone offset was taken at another instant
@@ -692,6 +694,8 @@ def interpret(case, ctx):
             leaf, a, b = _first_diff(tree, want, got)
             if dt_top:
                 key = ["C36.value", "timestamp", dt_cause or "core-differs"]
+            elif col_d["c"] == "DateTime":
+                key = ["C36.value", "timestamp", "date-object"]
             elif leaf == "timestamp" and isinstance(a, int) and isinstance(b, int):
                 key = ["C36.value", "timestamp", _ts_cause(b - a)]
             else:
